@@ -362,6 +362,7 @@ class ReadEvents(InoSpec):
         g["Inotify._close_resources"] = close_resources_contract(self)
         g["Inotify._add_watch"] = self.h_add_watch
         g["Inotify._add_dir_watch"] = self.h_add_dir_watch
+        g["Inotify._forget_paths"] = self.h_forget_paths
         g["Inotify._parse_event_buffer"] = self.h_parse
         g["os.walk"] = self.h_walk
         return g
@@ -412,6 +413,21 @@ class ReadEvents(InoSpec):
         if fails:
             raise Raise(VExc("OSError"), "_add_dir_watch()")
         ex.assume(new["wp"].dom[p])
+        return None
+
+    def h_forget_paths(self, ex, recv, a, k, n):
+        """call-side contract of _forget_paths(path) (proved by ForgetPaths): exactly the path entries at or below `path`
+        are dropped, every other entry keeps its descriptor, the descriptor -> path map and the kernel are not touched"""
+        W = self.W
+        p = W.Path.unwrap(a[0])
+        old = ex.heap[(self.me.id, "_wd_for_path")]
+        new = ex.fresh(W.TWP, "_wd_for_path")
+        q = z3.Const("fq", W.PS)
+        ex.assume(z3.ForAll([q], new.dom[q] == z3.And(old.dom[q], q != p, z3.Not(W.under(p, q)))))
+        ex.assume(z3.ForAll([q], z3.Implies(new.dom[q], new.val[q] == old.val[q])))
+        ex.heap[(self.me.id, "_wd_for_path")] = new
+        self.forgot = getattr(self, "forgot", [])
+        self.forgot.append((p, len(getattr(self, "dir_watch_calls", []))))
         return None
 
     def h_walk(self, ex, a, k, n):
@@ -510,6 +526,7 @@ class ReadEvents(InoSpec):
         self.add_failed_first = False
         self.add_calls = 0
         self.dir_watch_calls = []
+        self.forgot = []
         # IN_IGNORED is the last record for its descriptor: the kernel has dropped that watch
         ign = (mask & z3.BitVecVal(T.ABI["IN_IGNORED"], 32)) != 0
         self.g["K"] = z3.If(ign, z3.Store(self.g["K"], wd, False), self.g["K"])
@@ -566,6 +583,13 @@ class ReadEvents(InoSpec):
             ex.oblige("record[a whole directory is put under watch only by a recursive instance, for the directory the record itself announces (IN_MOVED_TO without a known watched source)]",
                       z3.And(rec, bit("IN_MOVED_TO"), isd, z3.Not(known), dp == src))
         ex.oblige("record[at most one directory installation per record]", len(dwc) <= 1)
+        fg = getattr(self, "forgot", [])
+        # the path map may still hold entries at or below the arriving name: they belong to a directory that left the tree
+        # earlier (its kernel watch lives on); a later rename of the NEW directory must not find them as its "source"
+        ex.oblige("record[a directory that arrives without a known watched source: what the path map still held at or below its name is forgotten before the new tree is installed]",
+                  z3.Implies(z3.And(live, rec, bit("IN_MOVED_TO"), isd, z3.Not(known)), z3.And(z3.BoolVal(len(fg) == 1 and fg[0][1] == 0), fg[0][0] == src if len(fg) == 1 else z3.BoolVal(False))))
+        for fpth, _n in fg:
+            ex.oblige("record[path entries are forgotten wholesale only for the name a directory arrives under without a known watched source]", z3.And(rec, bit("IN_MOVED_TO"), isd, z3.Not(known), fpth == src))
         ex.oblige("record[other kinds of records leave the path->descriptor map alone]",
                   z3.Implies(z3.And(live, z3.Not(bit("IN_MOVED_TO")), z3.Not(bit("IN_IGNORED")), z3.Not(z3.And(bit("IN_CREATE"), isd))), z3.And(m1["wp"].dom == m0["wp"].dom, m1["wp"].val == m0["wp"].val)))
 
@@ -741,6 +765,52 @@ class AddWatch(InoSpec):
         if self.last_add is not None:
             ex.oblige("raises[kernel said -1]", self.last_add[1] == -1)
         ex.oblige("raises[maps unchanged]", z3.And(wp.dom == self.m0["wp"].dom, wp.val == self.m0["wp"].val, pw.dom == self.m0["pw"].dom, pw.val == self.m0["pw"].val))
+
+
+class ForgetPaths(InoSpec):
+    """Inotify._forget_paths(path): drops exactly the path -> descriptor entries at or below `path`"""
+    qualname = "Inotify._forget_paths"
+
+    def __init__(self, W, prop):
+        self.W, self.world, self.prop = W, W, prop
+        self.loops = {1: LoopSpec("self._wd_for_path.copy()", self.inv, modifies=[("call", self.havoc_wp)])}
+        self.expected_covers = ["loop1.body", "loop1.end", "exit"]
+
+    def on_field(self, ex, obj, field, write):
+        pass
+
+    def havoc_wp(self, ex):
+        ex.heap[(self.me.id, "_wd_for_path")] = ex.fresh(self.W.TWP, "_wd_for_path")
+
+    def setup(self, ex):
+        W = self.W
+        for f in W.axioms():
+            ex.assume(f)
+        self.new_object(ex)
+        self.p = ex.fresh_term(W.PS, "path")
+        self.m0 = {"wp": ex.heap[(self.me.id, "_wd_for_path")], "pw": ex.heap[(self.me.id, "_path_for_wd")]}
+        return {"self": self.me, "path": W.Path.wrap(self.p)}
+
+    def hit(self, q):
+        return z3.Or(q == self.p, self.W.under(self.p, q))
+
+    def inv(self, ex, seen):
+        W = self.W
+        wp0, wp = self.m0["wp"], ex.heap[(self.me.id, "_wd_for_path")]
+        q = z3.Const("gq", W.PS)
+        return [("visited entries at or below the path are gone", z3.ForAll([q], z3.Implies(z3.And(seen[q], wp0.dom[q], self.hit(q)), z3.Not(wp.dom[q])))),
+                ("every other entry of the map is as it was", z3.ForAll([q], z3.Implies(z3.Not(z3.And(seen[q], self.hit(q))), z3.And(wp.dom[q] == wp0.dom[q], z3.Implies(wp0.dom[q], wp.val[q] == wp0.val[q])))))]
+
+    def post(self, ex, result):
+        W = self.W
+        wp0, wp, pw = self.m0["wp"], ex.heap[(self.me.id, "_wd_for_path")], ex.heap[(self.me.id, "_path_for_wd")]
+        q = z3.Const("gq", W.PS)
+        ex.oblige("post[exactly the path entries at or below the path are dropped]", z3.ForAll([q], wp.dom[q] == z3.And(wp0.dom[q], z3.Not(self.hit(q)))))
+        ex.oblige("post[every kept entry keeps its descriptor]", z3.ForAll([q], z3.Implies(wp.dom[q], wp.val[q] == wp0.val[q])))
+        ex.oblige("post[the descriptor -> path map is not touched]", z3.And(pw.dom == self.m0["pw"].dom, pw.val == self.m0["pw"].val))
+
+    def post_raise(self, ex, exc, site):
+        ex.oblige(f"no-uncaught[{exc.cls}@{site}] (called from the reader's loop)", False, kind="exception")
 
 
 class AddDirWatch(InoSpec):
